@@ -235,6 +235,32 @@ def generate (d : Def) : Option Gen :=
   | none => none
   | some ty => (stepValues (defaultsOf d.levels) ⟨{ ty := ty }, []⟩ d.values).map (·.gen)
 
+/-! ## `_verify_generated_enum_value_names_are_distinct` (back end, since commit dca9b37) -/
+
+/-- `_get_enum_value_names(value)` after `$default` propagation; `none` = crash. -/
+def Def.spellings (d : Def) (v : Value) : Option (List Name) :=
+  enumeratorNames v.name (effectiveCase v.attrs (defaultsOf d.levels))
+
+/-- The `seen` dictionary loop of `_check_generated_name`: `false` as soon as a C++ name was
+already generated (an error is appended; the header is not produced). -/
+def distinctLoop (seen : List Name) : List Name → Bool
+  | [] => true
+  | x :: xs => !seen.contains x && distinctLoop (x :: seen) xs
+
+/-- No "Enum values '…' and '…' would both be named '…' in the generated C++ code." error:
+over all values in order, over all spellings of each value in order. -/
+def Def.namesDistinct (d : Def) : Bool :=
+  match d.values.mapM d.spellings with
+  | none => false               -- the duplicate-attribute assertion / KeyError: no header either
+  | some ls => distinctLoop [] ls.flatten
+
+/-- `_verify_attribute_values`: every attribute named `enum_case` in reach of the enum. -/
+def Def.attrsVerified (d : Def) : Bool :=
+  (d.levels.flatten ++ d.values.flatMap (·.attrs)).all (fun a => verifyCases a.text)
+
+/-- The enum-specific part of "the C++ back end accepts the module" (returns a header). -/
+def Def.backAccepts (d : Def) : Bool := d.attrsVerified && d.namesDistinct
+
 /-! ## what the generated C++ means -/
 
 /-- `Enum::<x>`: the enumerator of that name (the first, if the header were to compile with
@@ -271,17 +297,15 @@ def Gen.labelValues (g : Gen) (es : List (Name × Int)) : List (Option Int) :=
 inductive Shown where
   | name (n : Name)
   | number (v : Int)
-  /-- `::std::int8_t`/`::std::uint8_t` are character types: `os << static_cast<uint8_t>(65)`
-  writes the byte `A`. -/
-  | byte (b : Nat)
 deriving DecidableEq, Repr
 
 /-- `operator<<` (`SendToOstream`): the name if there is one, else
-`os << static_cast<underlying_type>(v)`. -/
+`os << +static_cast<underlying_type>(v)` — the unary `+` promotes `(u)int8_t` (character types
+for `ostream`) to `int`, so every underlying type is streamed as a decimal number. -/
 def Gen.cppShow (g : Gen) (es : List (Name × Int)) (v : Int) : Shown :=
   match g.cppToName es v with
   | some n => .name n
-  | none => if g.ty.bits = 8 then .byte (v % 256).toNat else .number v
+  | none => .number v
 
 /-! ## `EnumView` over a `kBits`-wide field -/
 
@@ -289,13 +313,30 @@ def Gen.cppShow (g : Gen) (es : List (Name × Int)) (v : Int) : Shown :=
 to the enum's underlying type. -/
 def viewRead (ty : IntTy) (raw : Nat) : Int := wrap ty raw
 
+/-- `EnumView::ToBitViewValue` (since `fix: f572d62`): the value converted to the *unsigned
+counterpart of the enum's underlying type* first and then to `BitViewType::ValueType` (an
+unsigned type of `bvt` bits) — so a negative value is not sign-extended past the enum's width. -/
+def toBitViewValue (ty : IntTy) (bvt : Nat) (v : Int) : Int :=
+  wrap ⟨false, bvt⟩ (wrap ⟨false, ty.bits⟩ v)
+
 /-- `EnumView::CouldWriteValue(value)` with `ValueIsOk` = true; `bvt` = width of
 `BitViewType::ValueType` (an unsigned type), `w` = `Parameters::kBits`. -/
 def viewCouldWrite (ty : IntTy) (bvt w : Nat) (v : Int) : Bool :=
-  let asB := wrap ⟨false, bvt⟩ v
+  let asB := toBitViewValue ty bvt v
   decide (v = wrap ty asB) && (decide (w = bvt) || decide (asB < pow2 w))
 
-/-- The bits `TryToWrite` stores: the low `w` bits of the value cast to `BitViewType::ValueType`. -/
-def viewWriteBits (bvt w : Nat) (v : Int) : Nat := (wrap ⟨false, bvt⟩ v % pow2 w).toNat
+/-- The bits `TryToWrite` stores: the low `w` bits of `ToBitViewValue(value)`. -/
+def viewWriteBits (ty : IntTy) (bvt w : Nat) (v : Int) : Nat := (toBitViewValue ty bvt v % pow2 w).toNat
+
+/-- `ReadEnumViewFromTextStream` (`runtime/cpp/emboss_text_util.h`) on a *numeric* token with
+value `n`: a token starting with a digit is decoded into `uint64_t` (fails from `2^64`), one
+starting with `-` into `int64_t` (fails below `-2^63`); the result is `static_cast` to the enum
+type and handed to `TryToWrite`.  `none` = `UpdateFromText` returns false; `some bits` = the
+field's new raw bits. -/
+def viewReadTextNumber (ty : IntTy) (bvt w : Nat) (n : Int) : Option Nat :=
+  if (if 0 ≤ n then decide (n < pow2 64) else decide (-(pow2 63) ≤ n)) then
+    let v := wrap ty n
+    if viewCouldWrite ty bvt w v then some (viewWriteBits ty bvt w v) else none
+  else none
 
 end Emboss.Enum
